@@ -1,5 +1,6 @@
 """C05 — see DESIGN.md section 6."""
 from proto_engine import *
+import kv_engine
 
 MODULE = "Feox.Props.C05"
 THEOREMS = ['Feox.C05.partition_after_any_history', 'Feox.C05.apply_part', 'Feox.C05.release_valid', 'Feox.C05.partition', 'Feox.C05.extents_disjoint_in_bounds', 'Feox.C05.no_cross_damage', 'Feox.C05.empty_is_fresh', 'Feox.C05.no_leak', 'Feox.Proto.TiledBy.partition', 'Feox.Proto.TiledBy.recs']
@@ -11,4 +12,5 @@ def run(ctx):
         "TornDetect: a torn journal slot / metadata block fails its checksum or equals the old or the new image (DESIGN.md section 2) — a hypothesis, not an axiom",
         "the abstract disk (Feox.Proto.Disk) is related to bytes by the Lean reader Feox.Fmt.recoverImage, itself compared with the real recovery on every crash image of this run",
         "faults are injected at the I/O hook (synchronous path; io_uring disabled), not in the kernel",
-    ], lambda op: op.startswith("fmt recover"))
+        "the standing invariants (ownership partition, counters, MarkOK after every acknowledged flush and reopen) are also evaluated by the kv harness on every store configuration and format version",
+    ], lambda op: op.startswith("fmt recover"), pre_finish=lambda c, cov: kv_engine.inv_stage(c, cov))
